@@ -41,13 +41,14 @@ fn main() {
             "C18N" => c18::npz_case(&mut rng, case),
             "H01" => hist::net_case(&mut rng, false),
             "H01T" => hist::net_case(&mut rng, true),
-            "H03" => hist::case(&mut rng, &hist::Weights { apply_func: 2, compose0: 4, compose1: 4, elim: 6, reduce: 1, arith_tree: 3, arith_aff: 1, neg: 1, faults: false, partial16: 4, max_steps: 6 }, "C03"),
-            "H04" => hist::case(&mut rng, &hist::Weights { apply_func: 3, compose0: 3, compose1: 3, elim: 3, reduce: 3, arith_tree: 3, arith_aff: 2, neg: 1, faults: false, partial16: 4, max_steps: 10 }, "C04"),
-            "H05" => hist::case(&mut rng, &hist::Weights { apply_func: 2, compose0: 4, compose1: 3, elim: 6, reduce: 2, arith_tree: 2, arith_aff: 1, neg: 1, faults: false, partial16: 2, max_steps: 8 }, "C05"),
-            "H06" => hist::case(&mut rng, &hist::Weights { apply_func: 2, compose0: 6, compose1: 1, elim: 8, reduce: 0, arith_tree: 0, arith_aff: 1, neg: 0, faults: false, partial16: 0, max_steps: 8 }, "C06"),
-            "H07" => hist::case(&mut rng, &hist::Weights { apply_func: 1, compose0: 2, compose1: 0, elim: 1, reduce: 0, arith_tree: 8, arith_aff: 5, neg: 2, faults: false, partial16: 4, max_steps: 5 }, "C07"),
-            "H08" => hist::case(&mut rng, &hist::Weights { apply_func: 2, compose0: 4, compose1: 1, elim: 2, reduce: 8, arith_tree: 1, arith_aff: 1, neg: 1, faults: false, partial16: 3, max_steps: 7 }, "C08"),
-            "H11" => hist::case(&mut rng, &hist::Weights { apply_func: 1, compose0: 4, compose1: 4, elim: 8, reduce: 0, arith_tree: 2, arith_aff: 0, neg: 0, faults: true, partial16: 3, max_steps: 6 }, "C11"),
+            "H03" => hist::case(&mut rng, &hist::Weights { apply_func: 2, compose0: 4, compose1: 4, elim: 6, reduce: 1, arith_tree: 3, arith_aff: 1, neg: 1, faults: false, partial16: 4, max_steps: 6, palette: 0 }, "C03"),
+            "H04" => hist::case(&mut rng, &hist::Weights { apply_func: 3, compose0: 3, compose1: 3, elim: 3, reduce: 3, arith_tree: 3, arith_aff: 2, neg: 1, faults: false, partial16: 4, max_steps: 10, palette: 0 }, "C04"),
+            "H05" => hist::case(&mut rng, &hist::Weights { apply_func: 2, compose0: 4, compose1: 3, elim: 6, reduce: 2, arith_tree: 2, arith_aff: 1, neg: 1, faults: false, partial16: 2, max_steps: 8, palette: 0 }, "C05"),
+            "H06" => hist::case(&mut rng, &hist::Weights { apply_func: 2, compose0: 6, compose1: 1, elim: 8, reduce: 0, arith_tree: 0, arith_aff: 1, neg: 0, faults: false, partial16: 0, max_steps: 8, palette: 0 }, "C06"),
+            "H07" => hist::case(&mut rng, &hist::Weights { apply_func: 1, compose0: 2, compose1: 0, elim: 1, reduce: 0, arith_tree: 8, arith_aff: 5, neg: 2, faults: false, partial16: 4, max_steps: 5, palette: 0 }, "C07"),
+            "H08" => hist::case(&mut rng, &hist::Weights { apply_func: 2, compose0: 4, compose1: 1, elim: 2, reduce: 8, arith_tree: 1, arith_aff: 1, neg: 1, faults: false, partial16: 3, max_steps: 7, palette: 0 }, "C08"),
+            "H08R" => hist::case(&mut rng, &hist::Weights { apply_func: 1, compose0: 2, compose1: 0, elim: 1, reduce: 8, arith_tree: 0, arith_aff: 1, neg: 1, faults: false, partial16: 2, max_steps: 4, palette: 3 }, "C08"),
+            "H11" => hist::case(&mut rng, &hist::Weights { apply_func: 1, compose0: 4, compose1: 4, elim: 8, reduce: 0, arith_tree: 2, arith_aff: 0, neg: 0, faults: true, partial16: 3, max_steps: 6, palette: 0 }, "C11"),
             "C02" => c02::case(&mut rng, false),
             "C02T" => c02::case(&mut rng, true),
             "C09" => c09::case(&mut rng, false),
